@@ -105,7 +105,8 @@ JudgeOp1(e, Fr, Gr) ==
     [] e.op = "Scribble" -> Plain(TRUE)      \* overwriting what View.Slice() returned; persistence is judged by Persist
     [] e.op = "View" ->
          \* a typed view shows exactly the column's cells in frame order (C09); it joins the family (C01)
-         IF R.err \/ ~HasCol(R, e.a.col) THEN PlainU("unspec", TRUE)
+         \* (the harness registers a view - an empty one - also for an error frame or an absent column)
+         IF R.err \/ ~HasCol(R, e.a.col) THEN [PlainU("unspec", TRUE) EXCEPT !.newvd = <<e.vdig>>]
          ELSE [Plain(e.vcells = ColOf(R, e.a.col).cells) EXCEPT !.newvd = <<e.vdig>>]
     [] OTHER -> JudgeIO(e, Fr, Gr)
 
